@@ -25,8 +25,47 @@ static INFLIGHT_NEXT: std::sync::atomic::AtomicUsize = std::sync::atomic::Atomic
 thread_local! {
     static INFLIGHT_FILE: std::cell::RefCell<Option<std::fs::File>> = const { std::cell::RefCell::new(None) };
 }
+/// start time (ms since process start, 0 = idle) of the case each worker is executing, for the watchdog
+pub static HEARTS: [std::sync::atomic::AtomicU64; 64] = [const { std::sync::atomic::AtomicU64::new(0) }; 64];
+thread_local! {
+    static HEART_SLOT: std::cell::Cell<usize> = const { std::cell::Cell::new(usize::MAX) };
+}
+static HEART_NEXT: std::sync::atomic::AtomicUsize = std::sync::atomic::AtomicUsize::new(0);
+pub fn now_ms() -> u64 {
+    static T0: std::sync::OnceLock<std::time::Instant> = std::sync::OnceLock::new();
+    T0.get_or_init(std::time::Instant::now).elapsed().as_millis() as u64 + 1
+}
+fn heart(v: u64) {
+    HEART_SLOT.with(|s| {
+        if s.get() == usize::MAX {
+            s.set(HEART_NEXT.fetch_add(1, std::sync::atomic::Ordering::SeqCst) % 64);
+        }
+        HEARTS[s.get()].store(v, std::sync::atomic::Ordering::SeqCst);
+    });
+}
+/// the worker is between cases
+pub fn inflight_done() {
+    if INFLIGHT_DIR.get().is_some() {
+        heart(0);
+    }
+}
+/// `run` mode: a case that runs longer than `limit_s` ends the process (exit code 3); the case is in its in-flight file
+pub fn start_watchdog(limit_s: u64) {
+    std::thread::spawn(move || loop {
+        std::thread::sleep(std::time::Duration::from_millis(500));
+        let now = now_ms();
+        for h in HEARTS.iter() {
+            let t = h.load(std::sync::atomic::Ordering::SeqCst);
+            if t != 0 && now > t + limit_s * 1000 {
+                eprintln!("WATCHDOG: a case has been running for more than {limit_s} s (does not terminate?)");
+                std::process::exit(3);
+            }
+        }
+    });
+}
 pub fn inflight(head: &str, body: &[String]) {
     let Some(dir) = INFLIGHT_DIR.get() else { return };
+    heart(now_ms());
     use std::io::{Seek, Write};
     INFLIGHT_FILE.with(|f| {
         let mut f = f.borrow_mut();
@@ -495,4 +534,5 @@ pub fn run_program(lines: &[String], ctx: &mut Ctx) {
         };
         i = j;
     }
+    inflight_done();
 }
